@@ -223,8 +223,16 @@ func (e *c19Env) globalChecks() {
 					e.run.Fail(f)
 				}
 				if len(fs) == 0 {
-					fmt.Fprintln(os.Stderr, "HARNESS-NONDETERMINISM in C19: digest collision not reproduced")
-					os.Exit(2)
+					// The two documents collided in the enumeration pass but do not collide when rendered again: the rendering of
+					// at least one of them changed between two evaluations in this process. The harness builds the documents from
+					// fixed values, so the EIP-712 rendering is not a function of the sign document alone (hidden state in the
+					// encoder) - which is what let the two different documents share a digest.
+					da, _ := e.digestOf(e.docs[j].Doc)
+					db, _ := e.digestOf(e.docs[i].Doc)
+					e.run.Fail(ev.Finding{Clause: "eip712-rendering-is-a-function-of-the-document", Detail: fmt.Sprintf(
+						"documents %s and %s (differ in %s) shared the typed-data hash %x in the enumeration pass; rendered again they give %x and %x: the rendering of one document depends on what was rendered before it",
+						e.docs[j].Doc.id(), e.docs[i].Doc.id(), c19DiffDocs(e.docs[j].Doc, e.docs[i].Doc), []byte(dg), da, db),
+						Replay: map[string]interface{}{"collision": c19CollideCase{A: e.docs[j].Doc, B: e.docs[i].Doc}, "history_dependent": true}})
 				}
 			} else {
 				nSameAcrossEnc++
